@@ -154,6 +154,8 @@ def inputs_for(v, prop, tier, tag):
             items.append({"tag": t, "stream": B(s)})
         for k, c in ((129, True), (1000, True), (100000, True), (200000, False), (1000000, True)):
             items.append({"tag": f"nest-{k}", "nest": k, "complete": c})
+        items.append({"tag": "rst-before-accept", "special": "rst-backlog", "stream": []})
+        items.append({"tag": "rst-before-accept-2", "special": "rst-backlog", "stream": B(b"*1\r\n")})
         # floods: one unit repeated up to 1 MiB (4 MiB in the thorough tier)
         total = (1 << 20) if q else (1 << 22)
         for name, unit in (("crlf", b"\r\n"), ("cr", b"\r"), ("lf", b"\n"), ("plus", b"+"), ("minus", b"-"), ("colon", b":"), ("dollar", b"$"),
